@@ -9,6 +9,7 @@ import Proofs.VdrShrink
 import Proofs.VdrExact
 import Proofs.VdrReclaim
 import Proofs.VdrExample
+import Proofs.VdrTmp
 
 namespace Props.C14
 open Martian.Vdr
@@ -86,6 +87,20 @@ theorem reclaims_all_unreferenced (c : Cfg) (s0 : St) (evs : List Ev) (ok : CfgO
     obtain ⟨q, hq, e⟩ := r.sh.keys p hp
     rw [← e]; exact hdone q hq
   exact ⟨hfin, (r.kill ok sep hv x).fin hfin⟩
+
+/-- **tmp_gone_when_final.**  For every configuration and interleaving: once
+the fork's final report is written, no entry of the split / chunk / join temp
+directories is left (the split phase only counts for stages that split). -/
+theorem tmp_gone_when_final (c : Cfg) (s0 : St) (evs : List Ev) (hr : s0.ran = []) (hf : s0.final = false)
+    (hfin : (run c s0 evs).final = true) :
+    ∀ d ∈ (run c s0 evs).disk, ∀ ph, ph < 3 → (ph ≠ 0 ∨ c.splits = true) → d.kind ≠ .tmp ph := by
+  have t0 : TInv c s0 := by
+    refine ⟨?_, ?_⟩
+    · intro ph hp; rw [hr] at hp; cases hp
+    · intro h; rw [hf] at h; cases h
+  have t := t0.run evs
+  intro d hd ph hlt hne
+  exact t.clean ph (t.fin hfin ph ⟨hlt, hne⟩) d hd
 
 /-- Without that consistency the statement fails — the defect repaired in
 round 1 (the post-node argument set shared between static forks) is exactly a
